@@ -103,6 +103,7 @@ type Contract struct {
 	HasAssigns bool
 	Loops    map[int]*LoopSpec
 	Cases    []*CaseGroup
+	Impls    map[string][]string // interface type (as written) -> candidate dynamic types for dispatch
 	Inline   map[string]bool // callee keys to inline at call sites
 	Trusted  bool            // body not verified (assumed contract)
 	External bool            // function of another package (assumed contract)
@@ -135,7 +136,7 @@ type ContractSet struct {
 	Errs  []string
 }
 
-var clauseKeywords = map[string]bool{"cases": true, "func": true, "iface": true, "props": true, "requires": true, "ensures": true,
+var clauseKeywords = map[string]bool{"impls": true, "cases": true, "func": true, "iface": true, "props": true, "requires": true, "ensures": true,
 	"assigns": true, "loop": true, "inline": true, "trusted": true, "lemma": true, "call": true, "unproved": true}
 
 // ParseContractFile reads the //@ lines of one contract file.
@@ -251,6 +252,19 @@ func ParseContractFile(path, pkgPath string, cs *ContractSet) {
 						cur.Assigns = append(cur.Assigns, a)
 						lastAssign = a
 					}
+				}
+			case "impls":
+				// impls io.Reader: *io.LimitedReader, *CipherReader, *UTF8Reader
+				j := strings.Index(rest, ":")
+				if j < 0 {
+					addErr(ln, "impls needs: <interface>: <type>, <type> ...")
+					continue
+				}
+				if cur.Impls == nil {
+					cur.Impls = map[string][]string{}
+				}
+				for _, t := range strings.Split(rest[j+1:], ",") {
+					cur.Impls[strings.TrimSpace(rest[:j])] = append(cur.Impls[strings.TrimSpace(rest[:j])], strings.TrimSpace(t))
 				}
 			case "cases":
 				// cases name: a && !b | c && d | ...
@@ -1247,6 +1261,13 @@ func (g *genCtx) compileAssign(c *Contract, a *AssignItem, si *sigInfo, pos toke
 			return
 		}
 		rt = g.typeStr(info.Types[e].Type)
+		if a.Kind == "field" || a.Kind == "obj" {
+			if _, isPtr := info.Types[e].Type.Underlying().(*types.Pointer); !isPtr {
+				// an addressable struct-valued path (e.g. r.utf8): use its address
+				cl.Text = "&(" + cl.Text + ")"
+				rt = "*" + rt
+			}
+		}
 	}
 	g.compileClause(c, cl, si, pos, mode, rt)
 	a.Expr = cl
